@@ -47,11 +47,19 @@ func setup(repo, tier string) *Prog {
 	}
 	p.loadSpecSigs()
 	p.buildSCC()
-	if errs := p.evalGlobals(); len(errs) > 0 {
-		for _, e := range errs {
-			fmt.Fprintln(os.Stderr, "globals:", e)
+	func() {
+		defer func() {
+			if r := recover(); r != nil {
+				p.setupErrors = append(p.setupErrors, fmt.Sprint("package initialiser: ", r))
+			}
+		}()
+		if errs := p.evalGlobals(); len(errs) > 0 {
+			for _, e := range errs {
+				fmt.Fprintln(os.Stderr, "globals:", e)
+				p.setupErrors = append(p.setupErrors, "package initialiser: "+e)
+			}
 		}
-	}
+	}()
 	return p
 }
 
